@@ -23,6 +23,13 @@ def run_property(prop, tier, root, seed=0, write_evidence=True, quiet=False, ove
         return finish(ctx, write_evidence), ctx
     try:
         mod.run(ctx)
+        if tier == 'thorough' and overlay is None and os.environ.get('VERIF_NO_SELFVAL') != '1':
+            from . import selfval
+            selfval.run(ctx, prop)
+            st = ctx.selftest or {}
+            if not quiet:
+                print('   self-validation: %d variants, %d detected, %d skipped, missed=%s'
+                      % (st.get('variants', 0), st.get('detected', 0), len(st.get('skipped', [])), st.get('missed')))
     except AnalysisError as e:
         ctx.error(e.rule, e.construct, e.why)
     except Exception as e:
